@@ -182,6 +182,11 @@ class C04(HistoryProfile):
     if r < cfg["p_fault"]:
       out = {"k": "fbundle", "a": ev["a"], "ops": ev.get("ops", []),
              "fault": {"kind": g.rng.choice(cfg["kinds"]), "u": g.rng.random()}}
+      if set(cfg["kinds"]) & set(faults.FINDING_KINDS) and g.rng.random() < 0.3:
+        # sub-configuration: the fault lands after the `try` of apply_user_actions, in a doc
+        # action performed by auto-removal / recalculation side effects (known finding F-l)
+        out["fault"]["phase"] = "post"
+        out["fault"]["kind"] = g.rng.choice(["F1", "F2rec", "F4"])
       if cfg.get("enumerate") and g.rng.random() < cfg["enum_p"]:
         out["enumerate"] = True
       return out
@@ -257,7 +262,7 @@ class C04(HistoryProfile):
   def _faulted(self, sim, ev):
     pre = sim.sigma
     # A: fault-free, counting.
-    ra, counts = faults.run_counting(sim.primary, ev["a"])
+    ra, counts = faults.run_counting(sim.primary, ev["a"], phase=ev["fault"].get("phase", "ua"))
     sim.events.append(ev)
     sim.count("ev.fbundle")
     out = Outcome(ev)
@@ -287,11 +292,13 @@ class C04(HistoryProfile):
     return out
 
   def _one_position(self, sim, procB, ev, pre, ra, kind, pos):
-    rb, fired = faults.run_armed(procB, ev["a"], kind, pos)
-    what = "bundle with injected %s#%d" % (kind, pos)
+    phase = ev["fault"].get("phase", "ua")
+    rb, fired = faults.run_armed(procB, ev["a"], kind, pos, phase=phase)
+    tag = "" if phase == "ua" else " [post-action phase]"
+    what = "bundle with injected %s#%d%s" % (kind, pos, tag)
     sim.count("fault.configured_" + kind)
     if fired:
-      what = "bundle with injected %s#%d in %s" % (kind, pos, fired[2])
+      what = "bundle with injected %s#%d in %s%s" % (kind, pos, fired[2], tag)
       sim.count("fault.fired_" + kind)
       sim.count("fault.fired_%s_in_%s" % (kind, fired[2]))
     if not rb.ok:
